@@ -40,7 +40,10 @@ class InterpolatorPath:
         The value for the instance at the given path.
         """
         for key in self.keys:
-            instance = getattr(instance, key)
+            if isinstance(instance, dict):
+                instance = instance[key]
+            else:
+                instance = getattr(instance, key)
         return instance
 
     def __eq__(self, other: float) -> "Equality":
